@@ -12,9 +12,11 @@ def title_of(name):
     path = os.path.join(HERE, name)
     if name.endswith("patch.diff"):
         m = json.load(open(os.path.join(os.path.dirname(path), "meta.json")))
-        t = m.get("title", "")
+        t = m.get("title", "")[:110]
         if m.get("obsolete"):
-            t += " (OBSOLETE after a fix, see meta.json)"
+            why = str(m["obsolete"])
+            t = ("[NOT ADOPTED - outside the property's domain on the pinned tree, see 10.4] "
+                 if "outside" in why else "[OBSOLETE after a fix, see meta.json] ") + t
         return t
     for line in open(path):
         if line.startswith("# note:"):
